@@ -135,6 +135,14 @@ def iterate(unit, block, raw=None):
                     old = state[l.get("name")]
                     state[l.get("name")] = old + (1 if n.get("opcode") == "++" else -1)
                     return old if n.get("isPostfix") else state[l.get("name")]
+            if k == "CompoundAssignOperator" and n.get("opcode") in ("+=", "-="):
+                l = A.strip_casts(A.kids(n)[0])
+                if l.get("kind") == "MemberExpr" and l.get("name") in ("title", "value"):
+                    d_ = ev2.ev(A.kids(n)[1])
+                    if not isinstance(d_, int) or not isinstance(state[l.get("name")], int):
+                        raise FD.Unknown("pointer step %r" % (d_,), n)
+                    state[l.get("name")] += d_ if n.get("opcode") == "+=" else -d_      # (const char *: one byte per step)
+                    return state[l.get("name")]
             if k == "CallExpr" and A.callee_name(n) == "metaiterator_advance":
                 state["title"], state["value"] = _run_advance(unit, adv, mem, state["title"], state["value"])
                 return 0
@@ -178,7 +186,7 @@ class _Stop(Exception):
     pass
 
 
-def lookup(unit, block, qname, key, depth=0):
+def lookup(unit, block, qname, key, depth=0, fn=None, env=None, raw_result=False):
     """MetaContainer::find / operator[] evaluated on the block: the container's iteration is the evaluated iterator (its
     states in order), an iterator object is the token ("it", index of the state); range-for, begin()/end(), operator++,
     operator bool / != and the members title / value are given their meaning on that token.
@@ -187,8 +195,15 @@ def lookup(unit, block, qname, key, depth=0):
     iterate(unit, block, raw)
     n_entries = len(raw) - 1                      # the last state is the exhausted one
     mem = _Mem(block, unit)
-    fn = unit.function(qname)
+    fn = fn or unit.function(qname)
     keyp = unit.params(fn)[0]
+
+    def text(v, n):
+        if isinstance(v, str):
+            return v
+        if isinstance(v, int) and v >= BASE:
+            return mem.cstr(v)
+        raise FD.Unknown("string operand %r" % (v,), n)
 
     def field(tok, name, n):
         if tok == ("null",):
@@ -244,6 +259,9 @@ def lookup(unit, block, qname, key, depth=0):
                 return int(same == ("operator==" in op))
             if "operator*" in op:
                 return ev.ev(ks[1])
+            if "operator[]" in op and depth < 2 and "MetaContainer" in (A.qtype(ks[1]) or ""):
+                arg = ev.ev(ks[2])
+                return lookup(unit, block, "MetaContainer::operator[]", text(arg, n), depth + 1)
             raise FD.Unknown("operator call %s" % op, n)
         if k == "MemberExpr" and n.get("name") in ("title", "value") and ks:
             base = ev.ev(ks[0])
@@ -261,6 +279,30 @@ def lookup(unit, block, qname, key, depth=0):
             sa = a if isinstance(a, str) else mem.cstr(a)
             sb = b if isinstance(b, str) else mem.cstr(b)
             return 0 if sa == sb else (1 if sa > sb else -1)
+        if k == "CallExpr" and A.callee_name(n) in ("strncmp", "memcmp") and len(ks) == 4:
+            sa, sb, cnt = text(ev.ev(ks[1]), n), text(ev.ev(ks[2]), n), ev.ev(ks[3])
+            if A.callee_name(n) == "memcmp" and cnt > min(len(sa), len(sb)) + 1:
+                raise FD.Unknown("memcmp beyond a terminator", n)
+            sa, sb = (sa + "\0")[:cnt], (sb + "\0")[:cnt]
+            return 0 if sa == sb else (1 if sa > sb else -1)
+        if k == "CallExpr" and A.callee_name(n) == "strstr" and len(ks) == 3:
+            hay, needle = ev.ev(ks[1]), text(ev.ev(ks[2]), n)
+            i_ = text(hay, n).find(needle)
+            if i_ < 0:
+                return 0
+            return hay + i_ if isinstance(hay, int) else hay[i_:]
+        if k == "CallExpr" and A.callee_name(n) in ("atoi", "atol") and len(ks) == 2:
+            m_ = __import__("re").match(r"\s*([+-]?\d+)", text(ev.ev(ks[1]), n))
+            return int(m_.group(1)) if m_ else 0
+        if k == "CallExpr" and A.callee_name(n) in ("min", "max", "lowest") and len(ks) == 1:
+            # std::numeric_limits<int>::min(): a static member function without arguments that returns int
+            cd_ = A.callee_decl(n) or {}
+            if cd_.get("kind") == "CXXMethodDecl" and (A.qtype(ks[0]) or "").replace(" ", "").startswith("int(*)()"):
+                return 2**31 - 1 if A.callee_name(n) == "max" else -2**31
+        if k == "StringLiteral":
+            return A.string_literal(n)
+        if k == "ImplicitCastExpr" and n.get("castKind") == "ArrayToPointerDecay" and ks and A.string_literal(ks[0]) is not None:
+            return A.string_literal(ks[0])
         if k in ("GNUNullExpr", "CXXNullPtrLiteralExpr"):
             return 0
         return NotImplemented
@@ -274,7 +316,8 @@ def lookup(unit, block, qname, key, depth=0):
         if len(decls) != 1:
             raise FD.Unknown("range-for: loop variable not recognised", n)
         rng = [d for s_ in ks for d in (A.kids(s_) if s_.get("kind") == "DeclStmt" else []) if d.get("kind") == "VarDecl" and (d.get("name") or "").startswith("__range")]
-        if not rng or not any(y.get("kind") == "CXXThisExpr" for y in A.walk(rng[0])):
+        if not rng or not any(y.get("kind") == "CXXThisExpr" or (y.get("kind") == "DeclRefExpr" and "MetaContainer" in (A.qtype(y) or "") and
+                                                                     (y.get("referencedDecl") or {}).get("kind") == "ParmVarDecl") for y in A.walk(rng[0])):
             raise FD.Unknown("range-for over something else than the container itself", n)
         for i in range(n_entries):
             ev.env[decls[0]["id"]] = ("it", i)
@@ -285,14 +328,14 @@ def lookup(unit, block, qname, key, depth=0):
             except FD._Continue:
                 continue
         return True
-    ev = FD.Eval(env={keyp["id"]: key}, deref=mem.deref, call=mem.call, node_hook=hook, stmt_hook=stmt_hook, max_steps=6000)
+    ev = FD.Eval(env=dict(env) if env is not None else {keyp["id"]: key}, deref=mem.deref, call=mem.call, node_hook=hook, stmt_hook=stmt_hook, max_steps=6000)
     mem.ev = ev
     try:
         ev.run(unit.body(fn))
         rv = None
     except FD._Return as r:
         rv = r.v
-    if depth > 0:
+    if depth > 0 or raw_result:
         return rv                                  # the caller (operator[] forwarding to find) goes on with the token
     if isinstance(rv, tuple):
         if rv == ("null",) or (rv[0] == "it" and rv[1] >= n_entries):
@@ -307,3 +350,17 @@ def lookup(unit, block, qname, key, depth=0):
     if isinstance(rv, str):
         return rv
     return mem.cstr(rv)
+
+
+def enum_key(unit, block, symbol):
+    """rtosc::enum_key(MetaContainer meta, const char *value) evaluated with meta standing on the block -> int"""
+    fn = unit.function("enum_key")
+    ps = unit.params(fn)
+    cont = [p for p in ps if "MetaContainer" in (A.qtype(p) or "")]
+    sym = [p for p in ps if "char" in (A.qtype(p) or "")]
+    if len(ps) != 2 or len(cont) != 1 or len(sym) != 1:
+        raise FD.Unknown("enum_key: parameters (container, symbol) not recognised", fn)
+    rv = lookup(unit, block, None, None, fn=fn, env={sym[0]["id"]: symbol, cont[0]["id"]: ("this",)}, raw_result=True)
+    if not isinstance(rv, int):
+        raise FD.Unknown("enum_key returns %r" % (rv,), fn)
+    return rv
